@@ -232,7 +232,8 @@ class MRing:
 def subj_lrubytes(me, mb):
     from clematis.engine.util.lru_bytes import LRUBytes
 
-    ops = [("put", k, v, c) for k in KEYS for v in (0, 1) for c in (0, 1, 2, 4, 5, 6, -1)] + \
+    costs = (0, 1, 2, 4, 5, 6, -1) if mb else (0, 2, -1)  # without a byte cap the cost only feeds the accounting
+    ops = [("put", k, v, c) for k in KEYS for v in (0, 1) for c in costs] + \
           [("get", k) for k in KEYS] + [("contains", k) for k in KEYS] + [("clear",)]
 
     def make():
@@ -619,9 +620,17 @@ def threaded_history(kind, nthreads, nkeys, nops, cap, seed, sess, inject=True):
     import clematis.engine.cache as cmod
     import clematis.engine.util.lru_bytes as lbmod
 
+    clk = Clock()
+    TTL = 2
     if kind == "bytes":
         inner = LRUBytes(max_entries=cap, max_bytes=cap * 4)
         wrap = ThreadSafeBytesCache(inner)
+    elif kind == "lru-ttl":
+        # capacity above the key count: nothing is ever evicted, so a miss can only be a TTL expiry,
+        # which the logical clock (advanced by thread 0 only) lets the history checker decide
+        cap = nkeys + 2
+        inner = LRUCache(max_entries=cap, ttl_s=TTL, time_fn=clk)
+        wrap = ThreadSafeCache(inner)
     else:
         inner = LRUCache(max_entries=cap, ttl_s=0)
         wrap = ThreadSafeCache(inner)
@@ -637,7 +646,8 @@ def threaded_history(kind, nthreads, nkeys, nops, cap, seed, sess, inject=True):
     codes = []
     if inject and mon is not None:
         fns = [lbmod.LRUBytes.put, lbmod.LRUBytes.get, cmod._NamespaceCache.get, cmod._NamespaceCache.set,
-               cmod._NamespaceCache._evict_over_cap, cmod.LRUCache.get, cmod.LRUCache.set]
+               cmod._NamespaceCache._evict_over_cap, cmod.LRUCache.get, cmod.LRUCache.set, cmod.LRUCache.__contains__,
+               cmod.LRUCache.items]
         codes = [f.__code__ for f in fns]
 
         def on_line(code, line):
@@ -658,18 +668,23 @@ def threaded_history(kind, nthreads, nkeys, nops, cap, seed, sess, inject=True):
         try:
             for i in range(nops):
                 k = rng.choice(keys)
+                if kind == "lru-ttl" and tid == 0 and rng.random() < 0.25:
+                    clk.t += 1  # single writer: the logical clock is monotone
+                    continue
                 if rng.random() < 0.5:
                     v = (tid, i)
+                    c0 = clk.t
                     t0 = next(stamp)
                     if kind == "bytes":
                         wrap.put(k, v, rng.choice([1, 2, 4]))
                     else:
                         wrap.put(k, v)
-                    hist[tid].append(("put", k, v, t0, next(stamp)))
+                    hist[tid].append(("put", k, v, t0, next(stamp), c0, clk.t))
                 else:
+                    c0 = clk.t
                     t0 = next(stamp)
                     v = wrap.get(k)
-                    hist[tid].append(("get", k, v, t0, next(stamp)))
+                    hist[tid].append(("get", k, v, t0, next(stamp), c0, clk.t))
                 if i % 50 == 49:
                     with wrap._lock:  # quiescent point under the wrapper's own lock
                         bad = _thread_inv(kind, inner, cap)
@@ -731,6 +746,20 @@ def threaded_history(kind, nthreads, nkeys, nops, cap, seed, sess, inject=True):
             if p2 is not p and p2[3] > p[4] and p2[4] < g_call:
                 sess.violation("threads:stale-read(lost update)", case, {"key": k, "returned": v, "overwritten_by": p2[2]})
                 break
+    if kind == "lru-ttl":
+        nmiss = 0
+        for op in allops:
+            if op[0] != "get" or op[2] is not None:
+                continue
+            nmiss += 1
+            k, g_call, g_ret_clock = op[1], op[3], op[6]
+            for p_ in puts.get(k, []):
+                # a put that completed before the get was called and cannot have expired by the time the get returned
+                if p_[4] < g_call and (g_ret_clock - p_[5]) <= TTL:
+                    sess.violation("threads:fresh-entry-missing(lost update)", case, {"key": k, "put": p_[2], "put_clock": p_[5], "get_clock": g_ret_clock, "ttl": TTL})
+                    break
+        sess.count("threaded_ttl_misses_judged", nmiss)
+        sess.count("threaded_ttl_histories")
     # final state: every surviving value must be the last put of its key in some linearization:
     final = dict(wrap.items())
     for k, v in final.items():
@@ -750,6 +779,8 @@ def threaded_history(kind, nthreads, nkeys, nops, cap, seed, sess, inject=True):
 
 
 def _thread_inv(kind, inner, cap):
+    if kind == "lru-ttl":
+        return "over-capacity" if len(inner._ns._d) > cap + 100 else None
     if kind == "bytes":
         if len(inner._q) != len(inner._map) or set(inner._q) != set(inner._map):
             return "queue-vs-map"
@@ -843,8 +874,8 @@ def _work(args):
                 merge_case(rng, sess)
         elif what == "threads":
             rng = random.Random(f"C15/t/{seed}/{payload}")
-            for j in range(3 if tier == "quick" else 60):
-                threaded_history(rng.choice(["bytes", "lru"]), rng.randint(2, 8), rng.randint(2, 4),
+            for j in range(6 if tier == "quick" else 60):
+                threaded_history(rng.choice(["bytes", "lru", "lru-ttl"]), rng.randint(2, 8), rng.randint(2, 4),
                                  300 if tier == "quick" else 1500, rng.choice([1, 2, 3]), rng.randint(0, 10**6), sess)
     except Exception as ex:
         import traceback
@@ -861,7 +892,7 @@ def main(tier: str, seed: int):
     sess.assume("BFS over reachable states to depth %d covers every operation sequence of that length over the alphabet modulo state equivalence (behaviour depends on state only)" % depth)
     jobs = [("bfs", tier, seed, (k, list(p), depth)) for k, p in all_subjects(tier)]
     jobs += [("rand", tier, seed, i) for i in range(4 if tier == "quick" else 12)]
-    jobs += [("threads", tier, seed, i) for i in range(10 if tier == "quick" else 28)]
+    jobs += [("threads", tier, seed, i) for i in range(14 if tier == "quick" else 28)]
     for ex in par.pmap(_work, jobs):
         sess.merge(ex)
     sess.extra["bfs_depth"] = depth
@@ -871,6 +902,8 @@ def main(tier: str, seed: int):
     sess.require("yield_injections", 1000)
     sess.require("threaded_gets_with_value_checked", 500)
     sess.require("merges_checked", 500)
+    sess.require("threaded_ttl_histories", 3)
+    sess.require("threaded_ttl_misses_judged", 50)
     sess.finish()
 
 
